@@ -1600,13 +1600,29 @@ func (t *tScreen) parseXtermMouse(buf *bytes.Buffer, evs *[]Event) (bool, bool) 
 			}
 			state++
 		case 3:
-			btn = int(b[i])
+			btn = int(b[i]) - 32
 			state++
 		case 4:
 			x = int(b[i]) - 32 - 1
 			state++
 		case 5:
 			y = int(b[i]) - 32 - 1
+
+			// Same bookkeeping as for SGR reports: bit 5 marks motion,
+			// low bits 3 (without the wheel bit) are a release.
+			motion := (btn & 32) != 0
+			scroll := (btn & 0x42) == 0x40
+			btn &^= 32
+			if (btn&0x43) == 3 && !motion {
+				t.buttondn = false
+			} else if motion {
+				if !t.buttondn {
+					btn |= 3
+					btn &^= 0x40
+				}
+			} else if !scroll {
+				t.buttondn = true
+			}
 			for i >= 0 {
 				_, _ = buf.ReadByte()
 				i--
